@@ -124,6 +124,13 @@ class DataObjectProperty(DopBase):
             odxraise(f"Invalid type '{type(physical_value).__name__}' for physical value. "
                      f"(Expect atomic type!)")
         internal_value = self.compu_method.convert_physical_to_internal(physical_value)
+        if not self.compu_method.is_valid_internal_value(internal_value):
+            # e.g., due to rounding the result of the conversion
+            # might lie outside of the limits of the internal
+            # values. Such a PDU could not be decoded anymore.
+            odxraise(
+                f"The physical value {physical_value!r} corresponds to the "
+                f"internal value {internal_value!r} which is not valid.", EncodeError)
         self.diag_coded_type.encode_into_pdu(internal_value, encode_state)
 
     def decode_from_pdu(self, decode_state: DecodeState) -> ParameterValue:
